@@ -903,7 +903,7 @@ def check_c17(tier, seed):
         if k >= nfam:
             insts = [inst(cfgo, {'kind': 'moving', 'seed': 30 + k + j}, n, wh, delay=0, tail_delay=0) for j, (cfgo, wh, n) in enumerate(fixed[k - nfam])]
             sim = {'policy': 'rand', 'sw': 300, 'seed': 1000 + k}
-            conc = {'world': 'multi', 'instances': insts, 'sim': sim, 'machine': {'cores': 4, 'sockets': 1}, 'oracles': {'decode': 0, 'parse': 0, 'seg_events': 0}, '_ndec': 0, '_fixed': 1}
+            conc = {'world': 'multi', 'instances': insts, 'sim': sim, 'machine': {'cores': 4, 'sockets': 1}, 'oracles': {'decode': 0, 'parse': 0, 'seg_events': 0}, '_ndec': 0, '_fixed': 1, '_fam': k - nfam}
             solos = [{'world': 'enc', 'cfg': it['cfg'], 'content': it['content'], 'program': [o for o in it['program'] if o['op'] != 'yield'], 'sim': {'policy': 'np', 'seed': 1}, 'machine': {'cores': 4, 'sockets': 1}, 'oracles': {'decode': 0, 'parse': 0, 'order': 0}} for it in insts]
             for key, per in (('_fine', 2000), ('_mem', 3000), ('_mem', 15000)):   # function-entry preemption and memory-access preemption (hot kernels are excluded from the former)
                 cc = copy.deepcopy(conc); cc[key] = per; fams.append(copy.deepcopy(solos) + [cc])
